@@ -460,7 +460,9 @@ class ConditionLike:
 
             func_args = get_func_args_by_kind(cond_method)
 
-            # Coerce arguments to `DataPath`s where specified as such:
+            # Coerce arguments to `DataPath`s where specified as such (in a copy, so the
+            # caller's spec is not modified):
+            spec_val = copy.deepcopy(spec_val)
             if isinstance(spec_val, dict):
                 try:
                     spec_val = valida.datapath.DataPath.from_spec(spec_val)
